@@ -72,6 +72,10 @@ def units(ctx):
         yield ("d", k)
     for k in range(4):
         yield ("long", k)
+    for K in (17, 33, 65, 129, 300):
+        yield ("pause", K)
+    for vb in (1, 2, 3, 5, 8, 16, 17, 19, 32, 33, 64, 127, 128):
+        yield ("velsweep", vb)
     for vb in ([1, 2, 3, 4, 8] if ctx["tier"] == "quick" else [1, 2, 3, 4, 5, 8, 15, 16, 19, 32, 64, 100, 127]):
         for nt in (1, 2, 3):
             for pr in range(3):
@@ -156,6 +160,28 @@ def gen_cases(unit, ctx):
                 yield piece(plan, [t0], 1, cfg, vb)
                 yield piece(plan, [t0, t1], 0, cfg, vb)
                 yield piece(plan, [t0, t1, t2], 1, cfg, vb)
+        return
+    if kind == "pause":
+        # scale in time: three bars of music, K completely silent bars (one rest of up to 28800 ticks), two more bars
+        K = unit[1]
+        for sg in ("44", "38"):
+            plan = [sg] * (3 + K + 2)
+            st, _ = grid(plan)
+            t0 = [(st[0], 12, 60, 64), (st[1] + 6, 6, 62, 30), (st[2] + 6, 12, 60, 90), (st[3 + K] - 12, 12, 64, 64),
+                  (st[3 + K] + 12, 6, 65, 64), (st[-2] + 6, 12, 67, 64)]
+            t1 = [(6, 12, 40, 64), (st[3 + K] + 6, 6, 41, 64)]
+            for cfg in (FL[0], FL[15]):
+                yield piece(plan, [t0], 1, cfg, 1)
+                yield piece(plan, [t0, t1], 0, cfg, 8)
+        return
+    if kind == "velsweep":
+        # scale in the configuration: every velocity 1..127 once, for tokenisers with few, with many and with 128 bins
+        vb = unit[1]
+        plan = ["44"] * 8
+        tr = [(6 * i, 6, 21 + i % 80, i + 1) for i in range(127)]
+        for cfg in (FL[0], FL[15], FL[8]):
+            yield piece(plan, [tr], 1, cfg, vb)
+            yield piece(plan, [tr[::2], tr[1::2]], 1, cfg, vb)
         return
     if kind == "d":
         hist_ = CONFIG_HISTORIES[unit[1]]
